@@ -6,7 +6,7 @@
     `r.mu`, the channel operations `close(doneCh)` / `select`): `start`, `cacheRead`, `enter`
     (keysFromRemote's critical section, incl. creating the inflight request and spawning `updateKeys`,
     whose HTTP request is thereby sent), `wake` (the `select`), `cancel`, `rotate` (the environment
-    changes the served key set arbitrarily), `respond` (the download ends: ok / 5xx / bad JSON) and
+    changes the served key set arbitrarily), `respond` (the endpoint answers the download: any status, any body) and
     `upd` (the next block of `updateKeys` after the download).
   * the SHAPE of the two functions that share state (`keysFromRemote`, `updateKeys`) is a parameter
     `Facts` that factgen regenerates from the source on every run (Generated/Jwks.lean): whether a
@@ -65,13 +65,115 @@ inductive UOp
   | point (name : String)     -- `verifPoint(ctx, "jwks:<name>")`
   deriving DecidableEq, Repr, Inhabited
 
-/-- facts about `keysFromRemote` / `updateKeys` that factgen extracts from the source -/
+/-- How `httphelper.HttpRequest` (pkg/http/http.go) turns the endpoint's answer into its result; read off the statement
+    skeleton of the function that factgen regenerates for C09 (`GenC09.HttpRequest_skeleton`). -/
+structure HttpFacts where
+  checksStatus : Bool        -- a status other than 200 leaves the function with an error before the response is decoded
+  decodesWholeBody : Bool    -- `io.ReadAll` + `json.Unmarshal(body, response)`: the whole body must be one JSON document;
+                             -- false: `json.NewDecoder(resp.Body).Decode(response)`, which reads the FIRST value and ignores the rest
+  decodeErrReturned : Bool   -- the decode is followed by `if err != nil { return … }`
+  deriving DecidableEq, Repr, Inhabited
+
+namespace HttpFacts
+
+/-- the statements `HttpRequest` is known to consist of (a closed vocabulary: whole-line comparisons only, which the kernel
+    evaluates quickly; any other statement makes the reader give up) -/
+inductive Tok
+  | close                 -- }
+  | ifErr                 -- if err != nil {
+  | ifStatus              -- if resp.StatusCode != http.StatusOK {
+  | ifOther               -- another conditional block
+  | ret (isNil : Bool)    -- return …
+  | readAll               -- body, err := io.ReadAll(resp.Body)
+  | decWhole              -- err = json.Unmarshal(body, response)
+  | decStream             -- err = json.NewDecoder(resp.Body).Decode(response)
+  | other                 -- a statement without influence on the decision
+  deriving DecidableEq, Repr, Inhabited
+
+def tok (l : String) : Option Tok :=
+  if l == "}" then some .close
+  else if l == "if err != nil {" then some .ifErr
+  else if l == "if resp.StatusCode != http.StatusOK {" then some .ifStatus
+  else if l == "if err != nil || oidcErr.ErrorType == \"\" {" then some .ifOther
+  else if l == "return nil" then some (.ret true)
+  else if l == "return err" || l == "return &oidcErr"
+       || l == "return fmt.Errorf(\"unable to read response body: %v\", err)"
+       || l == "return fmt.Errorf(\"http status not ok: %s %s\", resp.Status, body)"
+       || l == "return fmt.Errorf(\"failed to unmarshal response: %v %s\", err, body)"
+       || l == "return fmt.Errorf(\"failed to unmarshal response: %v\", err)" then some (.ret false)
+  else if l == "body, err := io.ReadAll(resp.Body)" then some .readAll
+  else if l == "err = json.Unmarshal(body, response)" then some .decWhole
+  else if l == "err = json.NewDecoder(resp.Body).Decode(response)" then some .decStream
+  else if l == "resp, err := client.Do(req)" || l == "defer resp.Body.Close()" || l == "var oidcErr oidc.Error"
+       || l == "err = json.Unmarshal(body, &oidcErr)" then some .other
+  else none
+
+def toks : List String → Option (List Tok)
+  | [] => some []
+  | l :: rest =>
+    match tok l, toks rest with
+    | some t, some ts => some (t :: ts)
+    | _, _ => none
+
+/-- nesting depth of every statement -/
+def depths : List Tok → Nat → List (Tok × Nat)
+  | [], _ => []
+  | .close :: rest, d => (.close, d - 1) :: depths rest (d - 1)
+  | t :: rest, d =>
+    match t with
+    | .ifErr | .ifStatus | .ifOther => (t, d) :: depths rest (d + 1)
+    | _ => (t, d) :: depths rest d
+
+/-- the statements of the block that the line at index `i` opens (up to its closing brace) -/
+def blockAfter (ls : List (Tok × Nat)) (i : Nat) : List (Tok × Nat) :=
+  match ls[i]? with
+  | some (_, d) => (ls.drop (i + 1)).takeWhile (fun x => !(x.1 == .close && x.2 == d))
+  | none => []
+
+def isDec (t : Tok) : Bool := t == .decWhole || t == .decStream
+
+/-- Recognise the decision structure of `HttpRequest`; `none` = a shape this reader does not know. -/
+def ofSkeleton (sk : List String) : Option HttpFacts :=
+  match toks sk with
+  | none => none
+  | some ts =>
+    let ls := depths ts 0
+    -- exactly one statement decodes into `response`, and it is a top-level statement
+    match ls.filter (fun x => isDec x.1) with
+    | [(dec, 0)] =>
+      let iDec := (ls.findIdx? (fun x => isDec x.1)).getD 0
+      -- `body` must be everything the server sent: read exactly once, at top level, before the decode
+      let readOk := (match ls.filter (fun x => x.1 == .readAll) with
+        | [(_, 0)] => ((ls.findIdx? (fun x => x.1 == .readAll)).getD 0) < iDec
+        | _ => false)
+      if dec == .decWhole && !readOk then none else
+      -- status test: a top-level `if resp.StatusCode != http.StatusOK {` before the decode whose block ends in a return
+      let checks := (match ls.findIdx? (fun x => x.1 == .ifStatus && x.2 == 0) with
+        | some i => i < iDec && (match ((blockAfter ls i).filter (·.2 == 1)).getLast? with
+                                 | some (.ret _, _) => true
+                                 | _ => false)
+        | none => false)
+      -- the error of the decode is returned
+      let errRet := (match ls[iDec + 1]?, ls[iDec + 2]? with
+        | some (.ifErr, _), some (.ret false, _) => true
+        | _, _ => false)
+      some { checksStatus := checks, decodesWholeBody := dec == .decWhole, decodeErrReturned := errRet }
+    | _ => none
+
+/-- placeholder for an unrecognised shape (never equal to the facts the theorems are about) -/
+def unsupported : HttpFacts := { checksStatus := false, decodesWholeBody := false, decodeErrReturned := false }
+
+end HttpFacts
+
+/-- facts about `keysFromRemote` / `updateKeys` / `HttpRequest` / `jsonWebKeySet.UnmarshalJSON` that factgen extracts from the source -/
 structure Facts where
   guardNil : Bool               -- a request is created only `if r.inflight == nil`
   storeNew : Bool               -- the new request is stored: `r.inflight = newInflight()`
   spawnCtx : CtxKind            -- context expression passed to `go r.updateKeys(…)`
   spawnPoint : Bool             -- `verifPoint(ctx, "jwks:spawn")` right after the `go` statement
   selectCtx : Bool              -- the `select` has the case `<-ctx.Done(): return nil, ctx.Err()`
+  http : HttpFacts              -- which answers `HttpRequest` turns into a decoded response
+  skipsBadKeys : Bool           -- `jsonWebKeySet.UnmarshalJSON` appends an entry only `if err == nil` (unknown kty is skipped, not an error)
   updBlocks : List (List UOp)   -- `updateKeys` after the download: one list per atomic step (a step ends at a schedule
                                 -- point reached without holding `r.mu`, or with the function)
   deriving DecidableEq, Repr, Inhabited
@@ -89,9 +191,12 @@ inductive FetchRes
   | fail (k : EndKind)
   deriving DecidableEq, Repr, Inhabited
 
-def FetchRes.ofEnd (served : List ServedKey) : EndKind → FetchRes
-  | .ok => .keys (decode served)
-  | k => .fail k
+/-- what `fetchRemoteKeys` (HttpRequest into a `jsonWebKeySet`) makes of the endpoint's answer -/
+def FetchRes.ofAnswer (F : Facts) (a : Answer) : FetchRes :=
+  if F.http.checksStatus && !a.status200 then .fail .http5xx else
+  match (if F.http.decodesWholeBody then (if a.wellFormed then a.whole else none) else a.first) with
+  | none => if F.http.decodeErrReturned then .fail .badJson else .keys []
+  | some ks => if !F.skipsBadKeys && ks.any (fun k => !k.known) then .fail .badJson else .keys (decode ks)
 
 /-- what `keysFromRemote` hands to `verifySignatureRemote` -/
 def FetchRes.toGo : FetchRes → List JWK × Option String
@@ -136,7 +241,7 @@ inductive Act
   | wake (c : Cid) (viaCtx : Bool)     -- the `select`: `viaCtx` picks `<-ctx.Done()`, otherwise `<-inflight.wait()`
   | cancel (c : Cid)
   | rotate (ks : List ServedKey)
-  | respond (f : Fid) (k : EndKind)    -- the endpoint answers download `f` (`k ≠ cancelled`)
+  | respond (f : Fid) (a : Answer)     -- the endpoint answers download `f`
   | upd (f : Fid)                      -- `updateKeys` of request `f` runs its next block
   deriving Repr, Inhabited
 
@@ -251,7 +356,7 @@ def exec (F : Facts) (L : Logic) (cfg : JwksSet) (s : State) : Act → Option (S
                    inflight := if F.storeNew then some f else s.inflight }
         else s
       let o1 : List Obs :=
-        if create then [Obs.fetchBegin f c] ++ (if aborted then [Obs.fetchEnd f .cancelled] else []) else []
+        if create then [Obs.fetchBegin f c] ++ (if aborted then [Obs.fetchEnd f none] else []) else []
       -- an aborted download returns at once: its updater runs to its first schedule point
       let (s2, o2) := if create && aborted then runBlock F f s1 else (s1, [])
       let o3 : List Obs := if create && F.spawnPoint then [Obs.point (.caller c) "spawn"] else []
@@ -286,14 +391,14 @@ def exec (F : Facts) (L : Logic) (cfg : JwksSet) (s : State) : Act → Option (S
       let fs := abortedList s c
       let s2 := { s1 with fetches := abortOwned s c }
       let (s3, o3) := afterResults F s2 fs
-      some (s3, [Obs.cancel c] ++ fs.map (fun f => Obs.fetchEnd f .cancelled) ++ o3)
+      some (s3, [Obs.cancel c] ++ fs.map (fun f => Obs.fetchEnd f none) ++ o3)
     else some (s1, [.cancel c])
   | .rotate ks => if s.crashed then none else some ({ s with served := ks }, [.rotate ks])
-  | .respond f k =>
-    if s.crashed || k == .cancelled || !(decide (f < s.nf)) || (s.fetches f).res != none then none else
-    let s1 := { s with fetches := upd s.fetches f { s.fetches f with res := some (FetchRes.ofEnd s.served k) } }
+  | .respond f a =>
+    if s.crashed || !(decide (f < s.nf)) || (s.fetches f).res != none then none else
+    let s1 := { s with fetches := upd s.fetches f { s.fetches f with res := some (FetchRes.ofAnswer F a) } }
     let (s2, o2) := runBlock F f s1
-    some (s2, [Obs.fetchEnd f k] ++ o2)
+    some (s2, [Obs.fetchEnd f (some a)] ++ o2)
   | .upd f =>
     if s.crashed || !(decide (f < s.nf)) || (s.fetches f).res == none || (s.fetches f).upc == 0
        || !(decide ((s.fetches f).upc < F.updBlocks.length)) then none else
@@ -313,11 +418,13 @@ def run (F : Facts) (L : Logic) (cfg : JwksSet) : State → List Act → Option 
 /-- the shape of `updateKeys` on the repaired tree: publish under the lock, signal, release -/
 def fixedFacts : Facts :=
   { guardNil := true, storeNew := true, spawnCtx := .detached, spawnPoint := true, selectCtx := true,
+    http := { checksStatus := true, decodesWholeBody := true, decodeErrReturned := true }, skipsBadKeys := true,
     updBlocks := [[.point "fetched"], [.point "ulocked", .store true, .doneField, .point "done", .clear, .point "published"]] }
 
 /-- the shape before the two repairs (F-C13a: caller context; F-C13b: `done` before the lock) -/
 def legacyFacts : Facts :=
   { guardNil := true, storeNew := true, spawnCtx := .caller, spawnPoint := true, selectCtx := true,
+    http := { checksStatus := true, decodesWholeBody := true, decodeErrReturned := true }, skipsBadKeys := true,
     updBlocks := [[.point "fetched"], [.doneField, .point "done"], [.point "ulocked", .store true, .clear, .point "published"]] }
 
 end Jwks
